@@ -149,6 +149,8 @@ def main():
     try:
         targets = [f[:-2] + ".vo" for f in spec.coq_files] + [m + ".vo" for m in spec.model_modules_paths()]
         ok, msg = vetlib.coq_build(targets)
+        for tn in vetlib.LAST_TRANSLATE_NOTES:
+            notes.append(tn)
         if not ok:
             proof_ok = False
             notes.append("coq build failed: " + msg[-1500:])
